@@ -395,7 +395,10 @@ class C08(BaseCheck):
                                                  type(err).__name__ + ': ' + str(err)[:80] if err else 'no completion'),
                     dict(facts, err=type(err).__name__ if err else None),
                     {'faults_fired': [(f[0][2], f[0][3], f[1]) for f in fired], 'open_failed': open_failed})
-    transport.Close()
+    try:
+      transport.Close()
+    except Exception:  # noqa: clean-up only, every oracle has been evaluated
+      pass
     env.advance(0.2)
     out.classes = sorted(classes)
     out.nontrivial = bool(fired) or fkind is None or op == 'srvclose'
